@@ -61,3 +61,30 @@ Theorem C07_manager_capacity : forall (caps : list (string * capinfo)) (n : stri
   exists c, In (n, c) caps /\ 0 < cap_capacity c /\ n_cap i = cap_capacity c.
 Proof. exact manager_reports_plugin_capacity. Qed.
 Print Assumptions C07_manager_capacity.
+
+(* several plugins.  Manager.Alloc is refused as soon as one plugin refuses; if
+   every plugin's capacity is the largest count it admits, the merged capacity
+   (the minimum, C09) is the largest count the manager admits *)
+Theorem C07_min_capacity_is_max : forall (c1 c2 k : Z) (acc1 acc2 : Z -> Prop),
+  (forall j, acc1 j <-> j <= c1) -> (forall j, acc2 j <-> j <= c2) ->
+  (acc1 k /\ acc2 k <-> k <= Z.min c1 c2).
+Proof. exact min_capacity_is_max. Qed.
+Print Assumptions C07_min_capacity_is_max.
+
+(* zero capacity not offered, several plugins: FULL statement "no node is offered
+   with capacity 0" is refuted when a plugin reports an entry with capacity 0 (the
+   manager does not filter: C07_zero_entry_refuted; known finding); it holds when
+   every plugin filters its own answer as cpumem does (C07_zero_not_offered_partial) *)
+Theorem C07_zero_entry_refuted :
+  let a := [("n"%string, mkNdc 5 (fb 0) (fb 0) (f_of_Z 1))] in
+  let b := [("n"%string, mkNdc 0 (fb 0) (fb 0) (f_of_Z 1))] in
+  option_map n_cap (Merge.lookup "n"%string (fst (gndc_f [a; b]))) = Some 0.
+Proof. exact zero_entry_is_offered. Qed.
+Print Assumptions C07_zero_entry_refuted.
+
+Theorem C07_zero_not_offered_partial : forall (answers : list famap) (n : string) (i : fndc),
+  answers <> [] ->
+  (forall a k j, In a answers -> Merge.lookup k a = Some j -> 0 < n_cap j) ->
+  Merge.lookup n (fst (gndc_f answers)) = Some i -> 0 < n_cap i.
+Proof. exact positive_in_positive_out. Qed.
+Print Assumptions C07_zero_not_offered_partial.
